@@ -4,21 +4,77 @@
 
 package jws
 
-//@ spec sigValid(compact string, key *jws.JWK) bool
-//
-//@ func VerifyJWS
-//@   trusted
-//@   results sig, err
-//@   requires jwk != nil
-//@   ensures (err == nil) == sigValid(jwsStr, jwk)
-
-// compact JWS decoding is a function of the string (assumed; the parser's structure is C09's subject)
+// ---- C09 (structure): what is verified against what ----
+// compact JWS decoding is a function of the string (assumed; base64 / JSON decoding outside the subset)
 //@ spec jwsOK(c string) bool
 //@ spec jwsHeaders(c string) jws.Headers
 //@ spec jwsPayload(c string) bytes
+//@ spec jwsSig(c string) bytes
+//@ spec signInputOK(h jws.Headers, payload bytes) bool
+//@ spec signInput(h jws.Headers, payload bytes) bytes
+//@ spec ecVerified(k *jws.JWK, sig bytes, msg bytes) bool
+//@ spec edVerified(k *jws.JWK, sig bytes, msg bytes) bool
+//
+// key-type dispatch of signature verification
+//@ spec verifyPrim(k *jws.JWK, sig bytes, msg bytes) bool {
+//@     (k.Kty == "EC" && ecVerified(k, sig, msg)) || (k.Kty == "OKP" && edVerified(k, sig, msg)) }
+// a compact JWS verifies under key k exactly when its signature verifies, under k, over the signing input rebuilt
+// from the parsed protected header and payload
+//@ spec opaque sigValid(compact string, key *jws.JWK) bool {
+//@     jwsOK(compact) && signInputOK(jwsHeaders(compact), jwsPayload(compact)) &&
+//@     verifyPrim(key, jwsSig(compact), signInput(jwsHeaders(compact), jwsPayload(compact))) }
 //
 //@ func ParseJWS
 //@   trusted
 //@   results sig, err
 //@   ensures (err == nil) == jwsOK(jwsStr)
-//@   ensures err == nil ==> sig != nil && fresh(sig) && sig.ProtectedHeaders == jwsHeaders(jwsStr) && sig.Payload == jwsPayload(jwsStr)
+//@   ensures err == nil ==> sig != nil && fresh(sig) && sig.ProtectedHeaders == jwsHeaders(jwsStr) && sig.Payload == jwsPayload(jwsStr) && sig.signature == jwsSig(jwsStr)
+//
+//@ func signingInput
+//@   trusted
+//@   results out, err
+//@   ensures (err == nil) == signInputOK(headers, payload)
+//@   ensures err == nil ==> out == signInput(headers, payload)
+//
+//@ func verifyEd25519Signature
+//@   trusted
+//@   requires jwk != nil
+//@   ensures (result == nil) == edVerified(jwk, signature, msg)
+//
+// curve table: key size and hash per supported curve
+//@ spec curveKnown(c string) bool { c == "P-256" || c == "P-384" || c == "P-521" || c == "secp256k1" }
+//@ spec curveKeySize(c string) Z { cond(c == "P-256", 32, cond(c == "P-384", 48, cond(c == "P-521", 66, 32))) }
+//@ spec curveHash(c string) crypto.Hash { cond(c == "P-384", crypto.SHA384, cond(c == "P-521", crypto.SHA512, crypto.SHA256)) }
+//@ func parseEllipticCurve
+//@   ensures (result != nil) == curveKnown(curve)
+//@   ensures result != nil ==> fresh(result) && result.keySize == curveKeySize(curve) && result.hash == curveHash(curve)
+//
+//@ func (*JWK).UnmarshalJSON
+//@   trusted
+//@   modifies all(j)
+//
+// ECDSA: unsupported curve, a key that is not an EC public key, or a signature that is not exactly 2*keySize bytes
+// is rejected; r and s are the two halves
+//@ func verifyECSignature
+//@   requires jwk != nil
+//@   ensures result == nil ==> curveKnown(jwk.Crv) && len(signature) == 2 * curveKeySize(jwk.Crv)
+//@   assumes (result == nil) == ecVerified(jwk, signature, msg)
+//
+//@ func VerifySignature
+//@   requires jwk != nil
+//@   ensures result == nil ==> jwk.Kty == "EC" || jwk.Kty == "OKP"
+//@   ensures (result == nil) == verifyPrim(jwk, signature, msg)
+//@   ensures result == nil && jwk.Kty == "EC" ==> curveKnown(jwk.Crv) && len(signature) == 2 * curveKeySize(jwk.Crv)
+//
+//@ func GetED25519PublicKey
+//@   requires jwk != nil
+//@   results k, err
+//@   ensures err == nil ==> len(k) == 32
+
+// the signature is checked against the input rebuilt from the parsed header and payload, under the given key
+//@ func VerifyJWS
+//@   reveals sigValid
+//@   results sig, err
+//@   requires jwk != nil
+//@   ensures (err == nil) == sigValid(jwsStr, jwk)
+//@   ensures err == nil ==> sig != nil && sig.Payload == jwsPayload(jwsStr)
